@@ -131,7 +131,7 @@ def respond (t : JoinTable) (op : String) (args : List Bytes) : String :=
   | "std.scanLines", [b] => "ok" ++ String.join ((scanLines b).map fun g => " " ++ toHexArg g)
   | "std.isBlank", [b] => "ok " ++ (if isBlank b then "01" else "00")
   | "parse.run", input :: files =>
-    (match Parser.parse (decodeFs files) Parser.idOrd Parser.idOrd Parser.defaultFuel [] input with
+    (match Parser.parse (decodeFs files) Parser.sortedOrd Parser.sortedOrd Parser.defaultFuel [] input with
      | .error e => faultResp e
      | .ok st =>
        "ok " ++ toHexArg st.out ++ " " ++ toHexArg (Asm.sortFlags st.flags) ++ " " ++
@@ -142,7 +142,7 @@ def respond (t : JoinTable) (op : String) (args : List Bytes) : String :=
       | k :: v :: rest => (k, v) :: pairs rest
       | _ => []
     let vs := pairs kvs
-    let (out, vs') := Parser.expandDefinitions (vs.map Prod.fst) (vs.map Prod.fst) src vs
+    let (out, vs') := Parser.expandDefinitions (Parser.sortNames (vs.map Prod.fst)) (Parser.sortNames (vs.map Prod.fst)) src vs
     "ok " ++ toHexArg out ++ " " ++ toHexArg (unlines ((sortVars vs').map fun (k, v) => k ++ '=' :: v))
   | "parse.replaceSuffixes", [content, pairs] =>
     (match Parser.buildPairs pairs with
@@ -154,14 +154,14 @@ def respond (t : JoinTable) (op : String) (args : List Bytes) : String :=
   | "cli.renumberAll", check :: files => treeResp (Cli.renumberAll (check == ['1']) (decodeTree files))
   | "cli.copyrightAll", v :: y :: files => treeResp (Cli.copyrightAll v y (decodeTree files))
   | "cli.generate", ue :: us :: un :: we :: ws :: wn :: arg :: files =>
-    let r := Cli.generateCmd (tableEngine t) ⟨ue, us, un, we, ws, wn⟩ Parser.idOrd Parser.idOrd (decodeTree files) arg
+    let r := Cli.generateCmd (tableEngine t) ⟨ue, us, un, we, ws, wn⟩ Parser.sortedOrd Parser.sortedOrd (decodeTree files) arg
     "ok " ++ (if r.ok then "01" else "00") ++ " " ++ toHexArg r.stdout
   | "cli.update", ue :: us :: un :: we :: ws :: wn :: arg :: files =>
-    let r := Cli.updateCmd (tableEngine t) ⟨ue, us, un, we, ws, wn⟩ Parser.idOrd Parser.idOrd (decodeTree files) arg
+    let r := Cli.updateCmd (tableEngine t) ⟨ue, us, un, we, ws, wn⟩ Parser.sortedOrd Parser.sortedOrd (decodeTree files) arg
     treeResp ⟨r.tree, r.ok⟩
   | "cli.updateAll", ue :: us :: un :: we :: ws :: wn :: files =>
     let tr := decodeTree files
-    treeResp (Cli.updateAll (tableEngine t) ⟨ue, us, un, we, ws, wn⟩ Parser.idOrd Parser.idOrd {} tr tr)
+    treeResp (Cli.updateAll (tableEngine t) ⟨ue, us, un, we, ws, wn⟩ Parser.sortedOrd Parser.sortedOrd {} tr tr)
   | "update.apply", [c, id, k, re] => exceptResp (Update.updateRegex c id k.length re)
   | "update.read", [c, id, k] => exceptResp (Update.readCurrentRegex c id k.length)
   | "ruleid.parse", [a] =>
@@ -179,7 +179,7 @@ def respond (t : JoinTable) (op : String) (args : List Bytes) : String :=
      | .upToDate => "ok " ++ toHexArg "uptodate".toList
      | .fail => "ok " ++ toHexArg "fail".toList)
   | "gen.run", ue :: us :: un :: we :: ws :: wn :: input :: files =>
-    exceptResp (Asm.generate (tableEngine t) (decodeFs files) ⟨ue, us, un, we, ws, wn⟩ Parser.idOrd Parser.idOrd input)
+    exceptResp (Asm.generate (tableEngine t) (decodeFs files) ⟨ue, us, un, we, ws, wn⟩ Parser.sortedOrd Parser.sortedOrd input)
   | _, _ => "bad-op"
 
 partial def loop (hin hout : IO.FS.Stream) (t : JoinTable) : IO Unit := do
